@@ -2042,6 +2042,7 @@ mod type_parser {
         {
           annotation::T::Generic(id_annot.location, id_annot.id)
         } else {
+          report_type_arguments_on_type_parameter(parser, &id_annot);
           annotation::T::Id(id_annot)
         }
       }
@@ -2115,6 +2116,20 @@ mod type_parser {
     }
   }
 
+  /// `T<int>` with `T` a type parameter in scope would otherwise be read as an unknown class `T`,
+  /// which nothing downstream reports because the name `T` does resolve.
+  fn report_type_arguments_on_type_parameter(
+    parser: &mut super::SourceParser,
+    id_annot: &annotation::Id,
+  ) {
+    if id_annot.type_arguments.is_some() && parser.available_tparams.contains(&id_annot.id.name) {
+      parser.error_set.report_invalid_syntax_error(
+        id_annot.location,
+        "A type parameter cannot take type arguments.".to_string(),
+      );
+    }
+  }
+
   pub(super) fn fix_annot_with_generic_annot(
     parser: &mut super::SourceParser,
     annot: &mut annotation::T,
@@ -2125,6 +2140,8 @@ mod type_parser {
         if id_annot.type_arguments.is_none() && parser.available_tparams.contains(&id_annot.id.name)
         {
           *annot = annotation::T::Generic(id_annot.location, id_annot.id)
+        } else {
+          report_type_arguments_on_type_parameter(parser, id_annot);
         }
       }
       annotation::T::Fn(t) => {
